@@ -298,7 +298,8 @@ class StatementLineageHolder(SubQueryLineageHolder, ColumnLineageMixin):
         }
 
     def add_rename(self, src: Table, tgt: Table) -> None:
-        self.graph.add_edge(src, tgt, type=EdgeType.RENAME)
+        # index keeps the order of the pairs in a multi-pair RENAME statement
+        self.graph.add_edge(src, tgt, type=EdgeType.RENAME, index=len(self.rename))
 
     @staticmethod
     def of(holder: SubQueryLineageHolder) -> "StatementLineageHolder":
@@ -395,10 +396,20 @@ class SQLLineageHolder(ColumnLineageMixin):
                     if g.has_node(table) and g.degree[table] == 0:
                         g.remove_node(table)
             elif holder.rename:
-                for table_old, table_new in holder.rename:
+                # rename pair by pair in statement order (a set of pairs would be iterated in hash order), on a graph that
+                # no longer holds the RENAME edges, so that relabeling one pair can't move the edge of another pair
+                renames = sorted(
+                    (
+                        (attr.get("index", 0), table_old, table_new)
+                        for table_old, table_new, attr in holder.graph.edges(data=True)
+                        if attr.get("type") == EdgeType.RENAME
+                    ),
+                    key=lambda r: r[0],
+                )
+                g.remove_edges_from((old, new) for _, old, new in renames)
+                for _, table_old, table_new in renames:
                     g = nx.relabel_nodes(g, {table_old: table_new})
-                    g.remove_edge(table_new, table_new)
-                    if g.degree[table_new] == 0:
+                    if g.has_node(table_new) and g.degree[table_new] == 0:
                         g.remove_node(table_new)
             else:
                 read, write = holder.read, holder.write
